@@ -149,7 +149,10 @@ class Probe:
         return fr
 
     def finish(self, fr, res):
-        g, module = res[0], res[1]
+        try:
+            g, module = res[0], res[1]
+        except Exception:  # noqa: BLE001 - result of another shape: nothing recognisable was returned
+            g, module = res, None
         self.sync(('Instantiate',))
         fac = self.fac_of_module(module)
         renv = self.reg.env_of_result(g, fr.fn)
@@ -195,11 +198,14 @@ class Probe:
     # ---- abstract state of the implementation (replay)
     def abs_cache(self):
         out = set()
-        real = self.transpiler._cache._cache
-        for k, bucket in list(real.items()):
-            cid = self.reg.code_id(k, create=False)
-            for sk, v in list(bucket.items()):
-                out.add((cid, self.reg.opt_id(sk, create=False), tuple(self.fac_name(v))))
+        try:
+            real = self.transpiler._cache._cache
+            for k, bucket in list(real.items()):
+                cid = self.reg.code_id(k, create=False)
+                for sk, v in list(bucket.items()):
+                    out.add((cid, self.reg.opt_id(sk, create=False), tuple(self.fac_name(v))))
+        except Exception:  # noqa: BLE001 - a table of another shape is a state difference, not a harness crash
+            out.add((-1, -1, NOFAC))
         return out
 
     def abs_lock(self):
